@@ -172,7 +172,7 @@ def check(run):
                 run.ob('C10-KINDFWD', '%s::%s::kind' % (m.rel, m.short), False,
                        '%s: %s' % (m.short, msg), fn=m, node=node)
     run.floor('C10-GUARD', sum(1 for o in run.obs if o.rule == 'C10-GUARD'), 8)
-    run.floor('C10-NOWRITE', sum(1 for o in run.obs if o.rule == 'C10-NOWRITE'), 30)
+    run.floor('C10-NOWRITE', sum(1 for o in run.obs if o.rule == 'C10-NOWRITE'), 20)
     run.floor('C10-KINDFWD', sum(1 for o in run.obs if o.rule == 'C10-KINDFWD'), 9)
 
     run.attempt(whosets, run, p, rt)
